@@ -23,6 +23,8 @@ structure Rep where
   ckpt    : String            -- Info.Checkpoint
   rebuilding : Bool
   maxChain : Nat              -- types.MaxChainLength (0 = the built-in 1024)
+  stashHead : Nat             -- harness protocol: head number in the directory kept by `stash`
+  staleJoin : Bool            -- harness protocol: the rebuilding replica came back with that directory
   qDead   : Bool              -- harness protocol: the second healthy replica of the rebuild set-up was killed
   srcRev  : Nat               -- during a rebuild, after the swap: the source's revision counter
   rb      : Nat               -- rebuild phase of the harness protocol: 0 none, 1 begun, 2 reloaded, 4 mapped, 3 promoted
@@ -48,7 +50,8 @@ inductive RepOp where
   | setMode (m : Mode)
   | setRev (n : Nat)
   | setCkpt (s : String)
-  | rbBegin (name : String)               -- AddReplica: the automatic snapshot both replicas take
+  | rbBegin (name : String) (stale : Bool) -- AddReplica: the automatic snapshot both replicas take
+  | stash                                 -- harness: keep a copy of the closed directory (a replica leaves here)
   | rbReload                              -- the rebuilt replica after the file sync: Reload without preload
   | lunmap                                -- Server.UpdateLUNMap
   | rbPromote                             -- VerifyRebuildReplica: mode RW, counter equalised
@@ -69,7 +72,7 @@ namespace Rep
 
 def init (bs nb : Nat) : Rep :=
   { dd := DD.init bs nb, names := [], recs := [], orphans := [], isOpen := true, mode := .init, rev := 1,
-    headN := 0, ckpt := "", rebuilding := false, maxChain := 0, qDead := false, srcRev := 0, rb := 0 }
+    headN := 0, ckpt := "", rebuilding := false, maxChain := 0, stashHead := 0, staleJoin := false, qDead := false, srcRev := 0, rb := 0 }
 
 /-- payload of `w off len tag` at absolute unit `u` -/
 def payload (off tag : Nat) (u : Nat) : Nat := tag * 1000000 + (u - off) + 1
@@ -171,18 +174,20 @@ def step (r : Rep) : RepOp → Rep × RepOut
     if !r.isOpen || r.mode ≠ .rw then (r, .refused) else ({ r with rev := n }, .ok)
   | .setCkpt s =>
     if !r.isOpen then (r, .refused) else ({ r with ckpt := s }, .ok)
-  | .rbBegin n =>
+  | .stash => if r.isOpen || r.rb ≠ 0 then (r, .refused) else ({ r with stashHead := r.headN }, .ok)
+  | .rbBegin n stale =>
     if !r.isOpen || r.rb ≠ 0 || r.mode ≠ .rw || r.indexOf n ≠ 0 || r.orphans.contains n then (r, .refused) else
     -- Controller.Start opens the (closed) replica with preload and makes it RW; AddReplica then takes
     -- the automatic snapshot on every replica
     ({ r with dd := (r.dd.reopen true).snapshot false, names := r.names ++ [n], recs := r.bumpRecs ++ [r.rev],
-              headN := r.headN + 1, rb := 1, qDead := false }, .ok)
+              headN := r.headN + 1, rb := 1, qDead := false, staleJoin := stale }, .ok)
   | .rbReload =>
     if r.rb ≠ 1 || !r.isOpen then (r, .refused) else
     -- from here on the replica under test is the rebuilt one: the source's snapshot files, its own
     -- head (which received every write since the common snapshot), a fresh location map
     -- (mode WO, its own revision counter, which a WO replica does not advance)
-    ({ r with dd := (r.dd.setPunch true).reopen false, headN := 1, orphans := [], ckpt := "", rb := 2,
+    ({ r with dd := (r.dd.setPunch true).reopen false, headN := if r.staleJoin then r.stashHead + 1 else 1,
+              orphans := [], ckpt := "", rb := 2,
               mode := .wo, srcRev := r.rev, rev := 1 }, .ok)
   | .lunmap =>
     if !r.isOpen then (r, .refused) else ({ r with dd := r.dd.lunmap, rb := if r.rb = 2 then 4 else r.rb }, .ok)
